@@ -22,6 +22,19 @@ func PathMatch(target, path Expr) bool {
 		}
 	}
 	for i, f := range target {
+		if _, ok := f.(Descent); ok {
+			// A descent stands for the node itself and every descendant.
+			rest := target[i+1:]
+			for {
+				if PathMatch(rest, path) {
+					return true
+				}
+				if len(path) == 0 {
+					return false
+				}
+				path = path[1:]
+			}
+		}
 		if len(path) == 0 {
 			return false
 		}
